@@ -65,14 +65,14 @@ def django_load(inst):
     M.Org.objects.bulk_create([M.Org(id=o["id"], name=o["name"], size=o.get("size"), region_id=o.get("region"))
                                for o in inst.get("orgs", [])])
     M.Owner.objects.bulk_create([M.Owner(id=o["id"], name=o["name"], age=o.get("age"), rank=o.get("rank", 0),
-                                         org_id=o.get("org"), region_id=o.get("region"))
+                                         org_id=o.get("org"), region_id=o.get("region"), home_id=o.get("home"))
                                  for o in inst.get("owners", [])])
     M.Tag.objects.bulk_create([M.Tag(id=t["id"], label=t["label"], n=t["n"]) for t in inst.get("tags", [])])
     items = []
     for i, r in enumerate(inst["items"]):
         items.append(M.Item(id=r.get("id", i + 1), i1=r.get("i1"), i2=r.get("i2"), r1=r.get("r1"), s1=r.get("s1"),
                             s2=r.get("s2"), b1=r.get("b1"), t1=_aware(r.get("t1")), d1=_date(r.get("d1")),
-                            k=r.get("k", 0), owner_id=r.get("owner")))
+                            k=r.get("k", 0), owner_id=r.get("owner"), home_id=r.get("home")))
     M.Item.objects.bulk_create(items)
     through = M.Item.tags.through
     links = []
@@ -154,7 +154,7 @@ def sqlalchemy_models():
         size = sa.Column(sa.Integer)
         region_id = sa.Column(sa.ForeignKey("region.id"))
         region = relationship("Region", back_populates="orgs")
-        owners = relationship("Owner", back_populates="org")
+        owners = relationship("Owner", back_populates="org", foreign_keys="Owner.org_id")
 
     class Owner(Base):
         __tablename__ = "owner"
@@ -164,8 +164,10 @@ def sqlalchemy_models():
         rank = sa.Column(sa.Integer, nullable=False, default=0)
         org_id = sa.Column(sa.ForeignKey("org.id"))
         region_id = sa.Column(sa.ForeignKey("region.id"))
-        org = relationship("Org", back_populates="owners")
+        home_id = sa.Column(sa.ForeignKey("org.id"))
+        org = relationship("Org", back_populates="owners", foreign_keys=[org_id])
         region = relationship("Region")
+        home = relationship("Org", foreign_keys=[home_id])
         items = relationship("Item", back_populates="owner")
 
     class Tag(Base):
@@ -189,7 +191,9 @@ def sqlalchemy_models():
         k = sa.Column(sa.Integer, nullable=False, default=0)
         g1 = sa.Column(sa.String)
         owner_id = sa.Column(sa.ForeignKey("owner.id"))
+        home_id = sa.Column(sa.ForeignKey("region.id"))
         owner = relationship("Owner", back_populates="items")
+        home = relationship("Region")
         parts = relationship("Part", back_populates="item")
         tags = relationship("Tag", secondary=item_tags, back_populates="items")
 
@@ -246,7 +250,7 @@ def sqlalchemy_load(inst):
                                               "region_id": o.get("region")} for o in inst["orgs"]])
     if inst.get("owners"):
         c.execute(S.Owner.__table__.insert(), [{"id": o["id"], "name": o["name"], "age": o.get("age"),
-                                                "rank": o.get("rank", 0), "org_id": o.get("org"), "region_id": o.get("region")} for o in inst["owners"]])
+                                                "rank": o.get("rank", 0), "org_id": o.get("org"), "region_id": o.get("region"), "home_id": o.get("home")} for o in inst["owners"]])
     if inst.get("tags"):
         c.execute(S.Tag.__table__.insert(), [{"id": t["id"], "label": t["label"], "n": t["n"]} for t in inst["tags"]])
     rows = []
@@ -255,7 +259,7 @@ def sqlalchemy_load(inst):
         iid = r.get("id", i + 1)
         rows.append({"id": iid, "i1": r.get("i1"), "i2": r.get("i2"), "r1": r.get("r1"), "s1": r.get("s1"),
                      "s2": r.get("s2"), "b1": r.get("b1"), "t1": _naive(r.get("t1")), "d1": _date(r.get("d1")),
-                     "k": r.get("k", 0), "owner_id": r.get("owner")})
+                     "k": r.get("k", 0), "owner_id": r.get("owner"), "home_id": r.get("home")})
         for tid in r.get("tags", []):
             links.append({"item_id": iid, "tag_id": tid})
     c.execute(S.Item.__table__.insert(), rows)
